@@ -235,6 +235,22 @@ def gen_roundtrip(tier, R):
     depth = 6 if tier == 'quick' else 12
     for _ in range(1500 if tier == 'quick' else 300000):
         trees.append(rnd_tree(R, R.randint(1, depth), 3 if tier == 'quick' else 6))
+    # sizes: chains of n operands under one operator (left-nested, as the language associates; and with a right-nested group at the end, which must keep its parentheses), alone and inside a call
+    from gen.trees import SIZES, SIZES_BIG
+    for n in (SIZES if tier == 'quick' else SIZES_BIG):
+        for o in [x for x in ('-', '/', '+', '*', 'or', 'and', 'xor', 'div', 'mod') if x in ops]:
+            leaves = [('var', f'x{i}') if i % 2 else ('num', str(i + 1)) for i in range(n)]
+            t = leaves[0]
+            for x in leaves[1:]:
+                t = ('bin', o, t, x)
+            trees.append(t)
+            if n <= 130:
+                t2 = leaves[0]
+                for x in leaves[1:-2]:
+                    t2 = ('bin', o, t2, x)
+                t2 = ('bin', o, t2, ('bin', o, leaves[-2], leaves[-1]))
+                trees.append(t2)
+                trees.append(('call', 'f', [t, ('un', '-', t2)]))
     out = []
     for t in trees:
         ex = exp_field('R=ok:' + canon(t))
@@ -326,6 +342,27 @@ def gen_layout(tier, R):
     for bad in ["1 +\x0c 2", "1\x0b+ 2", "a\xa0+ b", "a\u2028b", "1 \x85 2", "\ufeff1", "'abc", "'", "a ' b", "$", "a $ b", "1 ? 2", "\\", "{", "{ {", "//", "", "   ", "#", "a ~ b", "1..2", ".", "..", "1.2.3", "٣", "x ٣", "١٢٣", "²", "½", "a ½", " ", "a b", "　"]:
         out.append(text_case('scan', bad))
         out.append(text_case('text', bad))
+    # sizes: lexemes of n characters - number literals whose value is decided by digits far behind the 17th (a text padded with zeros, a tail that lifts it over a midpoint, the smallest and the
+    # largest doubles written out), string literals and identifiers of n characters with multi-byte characters at the end and at the 32/64 boundaries
+    from gen.trees import SIZES
+    def number_forms(n):
+        forms = ["0.1" + "0" * (n - 3), "9007199254740993." + "0" * max(0, n - 18) + "1", "9007199254740993." + "0" * max(1, n - 17), "0." + "0" * (n - 3) + "1", "1" + "0" * (n - 1),
+                 "1" + "0" * (n - 2) + "1", "0." + "9" * (n - 2), "4.9406564584124654" + "0" * max(0, n - 18) if n > 18 else "0.5", "123456789" * (n // 9 + 1)]
+        return [f[:n] if not f.endswith('1') or len(f) <= n else f[:n - 1] + '1' for f in forms]
+    for n in SIZES:
+        for f in number_forms(n):
+            if len(f) >= 1 and f[0].isdigit():
+                out.append(text_case('scan', f))
+                out.append(text_case('text', f + " + 1"))
+        for ch in ("é", "€", "😀", "a"):
+            body = "a" * (n - 1) + ch
+            out.append(text_case('rtext', "'" + body + "'", exp_field("R=ok:(lit (s" + "".join(f" {ord(c)}" for c in body) + "))")))
+            if ch != "😀" and ch != "€":
+                out.append(text_case('rtext', body, exp_field("R=ok:(var (s" + "".join(f" {ord(c)}" for c in body) + "))")))
+            for k in (31, 32, 33, 63, 64):
+                if k < n:
+                    b2 = "b" * k + ch + "c" * (n - k - 1)
+                    out.append(text_case('rtext', "'" + b2 + "'", exp_field("R=ok:(lit (s" + "".join(f" {ord(c)}" for c in b2) + "))")))
     # through compile() itself (not only the scanner): every white-space and line-break character inside string literals, inside // comments (which end at LF only) and inside block comments,
     # and between tokens - a normalisation of the raw text before scanning (CR LF -> LF, tabs -> spaces, trimming) would change what a literal denotes or where a comment ends
     for w in ["\r", "\r\n", "\n", "\t", "\n\r", " \r ", "\x0b", "\x0c", "\u0085", "\u2028", "\u00a0"]:
@@ -365,6 +402,17 @@ def gen_total(tier, R):
     for n in range(1, n_max + 1):
         for c in itertools.product(FRAGS, repeat=n):
             out.append(text_case('text', ' '.join(c) if (n < 3 or hash(c) % 2) else ''.join(c)))
+    # sizes: every kind of lexeme at n characters with a multi-byte character last (a lexeme copied by a byte range computed in characters ends inside it)
+    from gen.trees import SIZES
+    for n in SIZES:
+        for ch in ("é", "€", "😀", "٣", "²"):
+            for body in ("a" * (n - 1) + ch, ch * n, "a" * (n // 2) + ch + "a" * (n - n // 2 - 1)):
+                out.append(text_case('text', "'" + body + "'"))
+                out.append(text_case('text', body))
+                out.append(text_case('text', "1" * (n - 1) + ch))
+                out.append(text_case('text', "{" + body + "} 1"))
+                out.append(text_case('text', "1 //" + body))
+                out.append(text_case('text', "f(" + body + ", '" + body + "')"))
     for _ in range(600 if tier == 'quick' else 30000):
         t = rnd_tree(R, R.randint(1, 5))
         txt = layout(toks(t, 1, 'rand', R), R)
